@@ -9,7 +9,7 @@ sources of every kind and length 0..4, rotating consumers; (2) seeded random pip
 the pipeline and its copy (independence of copies)."""
 import itertools, random, time
 from .common import *
-from kvmodel.values import KTuple, KList, display, RuntimeErr
+from kvmodel.values import KTuple, KList, display, RuntimeErr, wrap
 from kv.pool import fan_out
 
 PID = "C13"
@@ -83,6 +83,14 @@ class SeqSrc(It):
         return END
     def copy(self):
         return SeqSrc(self.items, self.i, self.j)
+
+class FwdSrc(SeqSrc):
+    """A host iterator that only goes forward."""
+    bidir = False
+    def next_back(self):
+        return END
+    def copy(self):
+        return FwdSrc(self.items, self.i, self.j)
 
 class GenSrc(It):
     def __init__(self, items, t, pos=0, done=False):
@@ -495,6 +503,11 @@ def make_source(seg, kind, n, rng):
             return "(isrc %s)" % data, GenSrc(items, seg.t), "int"
         seg.copy_ok = False
         return "(osrc %s)" % data, ObjSrc(items, seg.t), "int"
+    if kind in ("host_bytes", "host_iter", "host_forward_iter"):
+        items = [rng.choice([1, 2, 3, 4, 12, 21, 0, 255]) for _ in range(n)]
+        data = "[" + ", ".join(map(str, items)) + "]"
+        src = FwdSrc(items) if kind == "host_forward_iter" else SeqSrc(items)
+        return "%s(%s)" % (kind, data), src, "int"
     if kind == "range":
         lo = rng.choice([0, 1, -2, 5])
         form = rng.randrange(3)
@@ -529,7 +542,7 @@ def make_source(seg, kind, n, rng):
         return "iterator.once(%s)" % lit(v), CountSrc("repeat", 1, seg.t, None, v), "int" if is_int(v) else "str"
     raise ValueError(kind)
 
-SOURCE_KINDS = ["list", "tuple", "range", "string", "map", "gen", "obj", "iterobj", "nested", "generate", "repeat", "once"]
+SOURCE_KINDS = ["list", "tuple", "range", "string", "map", "gen", "obj", "iterobj", "nested", "generate", "repeat", "once", "host_bytes", "host_iter", "host_forward_iter"]
 
 # ---------------------------------------------------------------- adaptor stages
 def stage_instances():
@@ -733,14 +746,14 @@ def consume(seg, lines, expr, it, typ, consumer, rng):
         lines.append("print %s.fold 1, |a, x| a * 3 + x" % expr)
         a = 1
         for v in drain_lazy(it):
-            a = a * 3 + need_int(v)
+            a = wrap(a * 3 + need_int(v))
         t.append(str(a))
     elif c in ("sum", "product", "sum_init"):
         init = 100 if c == "sum_init" else 0 if c == "sum" else 1
         lines.append("print %s.%s(%s)" % (expr, "sum" if c != "product" else "product", "100" if c == "sum_init" else ""))
         a = init
         for v in drain_lazy(it):
-            a = a + need_int(v) if c != "product" else a * need_int(v)
+            a = wrap(a + need_int(v) if c != "product" else a * need_int(v))
         t.append(str(a))
     elif c in ("min", "max", "min_max"):
         lines.append("print %s.%s()" % (expr, c))
@@ -900,7 +913,7 @@ def seg_spec_stream(tier, seed, shard, n):
     # exhaustive pairs: every ordered pair (and every single stage, and the empty pipeline)
     combos = [()] + [(a,) for a in inst] + [(a, b) for a in inst for b in inst]
     lengths = (0, 1, 2, 3, 4)
-    kinds = ["list", "gen", "obj", "string", "map", "nested", "range", "tuple", "iterobj"]
+    kinds = ["list", "gen", "obj", "string", "map", "nested", "range", "tuple", "iterobj", "host_bytes", "host_iter", "host_forward_iter"]
     idx = 0
     for ci, combo in enumerate(combos):
         for ki, kind in enumerate(kinds):
